@@ -102,3 +102,17 @@ TABLE['C17'] = {
     'assumptions': ['names that collide with members of StaticResourceMap are excluded (as in the statement)'],
     'explanation': 'Immutability (__setattr__/__delattr__ raise unconditionally and change nothing) is discharged deductively. The mirror clause (get_static_map builds a class with __slots__ per map, recursively) is outside the verifier subset and is checked by the BOUNDED native stand-in only: not proved.',
 }
+
+TABLE['C14'] = {
+    'modules': ['loop_spec'], 'replay': 'loop_replay', 'level': 'proof',
+    'trusted_base': T_STATE + ['T3 time readings are exact reals'],
+    'assumptions': ['time_function readings are exact reals (T3)', 'processors and callbacks do not write the fields of the loop (switching is requested by exception only)'],
+    'explanation': 'Loop invariant of SimpleLoop.loop over the ghost reading sequence tlog and the ghost (world, dt) sequence wplog; exceptional postconditions of loop / Loop.start / SimpleLoop.start for Quit and for every other exception.',
+}
+
+TABLE['C13'] = {
+    'modules': ['loop_spec'], 'replay': 'loop_replay', 'level': 'proof',
+    'trusted_base': T_STATE,
+    'assumptions': ['a world handle loads World instances', 'callbacks released when the entered world is enabled do not touch the loop'],
+    'explanation': 'Contracts of Loop.switch / SimpleLoop.switch over the Handle contract and the ghost load counter: the loop enters exactly the instance the handle holds, a cached uncleared target is not reloaded, a cleared one is loaded exactly once.',
+}
